@@ -1,7 +1,11 @@
 (* C04 — vectorization does not change the model (vectorize=True == vectorize=False == unit-level edge sum).
    Statements only; every proof is `exact <lemma of VectorizeProofs>`.  Model: theories/Vectorize.v.
 
-   FULL STATEMENT, unconditional (all repairs D46, D57, D58, D59, D85, D86 are in /repo):
+   FULL STATEMENT — no guard beyond `wf` (all repairs D46, D57, D58, D59, D85, D86 are in /repo).  NOTE what `wf` excludes:
+   `wf_cls` demands `poly_no_r g`, i.e. an algebraic source variable that depends on its own input — legal PyRates, and
+   silently wrong when it projects into its own structural class (open finding D23) — is NOT a circuit of this model.
+   MODEL FAMILY: scalar-weight edges without delays and without edge templates, one state variable per operator,
+   polynomial right-hand sides; delays / edge templates named by the property text are not modelled here (C09/C11/C16).
      C04_full             forall c st, wf c = true -> length st = length (cnodes c) ->
                             impl true c st = Some (spec c st) /\ impl false c st = Some (spec c st)
      C04_impl_is_spec     forall vec c st, wf c = true -> impl vec c st = Some (spec c st)
@@ -150,6 +154,8 @@ Theorem C04_guarded_from_no_err : C04_no_err_statement -> C04_guarded_statement.
 Proof. exact guarded_from_no_err. Qed.
 Print Assumptions C04_guarded_from_no_err.
 
+(* VACUOUS as compiled (fixed_D21 := true makes the hypothesis false); kept as a record.  The real before-fix statements
+   are C04_full_refuted_before_D86_explicit / _D85_explicit below, over impl_gen's explicit switches. *)
 Theorem C04_full_refuted_before_D86 : fixed_D21 = false -> ~ C04_full_statement.
 Proof. exact full_statement_refuted. Qed.
 Print Assumptions C04_full_refuted_before_D86.
@@ -274,3 +280,24 @@ Theorem C04_indexed_identity_generated : forall d var idx n reduce s,
    gather (map Z.of_nat (seq 0 (Z.to_nat n))) (-1)%Z idx <> map Z.of_nat (seq 0 (Z.to_nat n))).
 Proof. exact indexed_identity_generated. Qed.
 Print Assumptions C04_indexed_identity_generated.
+
+(* ---- before-fix records over the explicit switches of impl_gen (real statements, whatever the constants are) ---- *)
+Definition C04_full_statement_gen (f32 f21 : bool) : Prop := full_statement_gen f32 f21.
+
+Theorem C04_full_refuted_before_D86_explicit : ~ C04_full_statement_gen true false.
+Proof. exact full_refuted_before_D86. Qed.
+Print Assumptions C04_full_refuted_before_D86_explicit.
+
+Theorem C04_full_refuted_before_D85_explicit : ~ C04_full_statement_gen false true.
+Proof. exact full_refuted_before_D85. Qed.
+Print Assumptions C04_full_refuted_before_D85_explicit.
+
+Theorem C04_full_gen_when_both_on : C04_full_statement_gen true true.
+Proof. exact full_gen_when_both_on. Qed.
+Print Assumptions C04_full_gen_when_both_on.
+
+(* ---- "the simulated trajectory is identical": explicit Euler with Impl's vector field = with Spec's, any number of steps
+   (fixed-step Euler on the frontend state only; the solver loop of run(), other solvers and sampling are C03) ---- *)
+Theorem C04_euler_trajectory : forall vec c h n st, wf c = true -> euler_impl vec c h st n = Some (euler_spec c h st n).
+Proof. exact euler_impl_is_spec. Qed.
+Print Assumptions C04_euler_trajectory.
